@@ -756,6 +756,55 @@ def tsan_mon(ctx, name, args, timeout=2400, owner=None, env_extra=None):
             pass
 
 
+def cdrv_big(ctx, name, variant, kind, length, seek=0, exe=None, timeout=1800):
+    """Size-class probe of the C API: one call that moves `length` (> 2^32) bytes (cdrv --big).
+    Expected values come from the specification model (mon huge-expect)."""
+    import cbuild
+    mon = cargo_build("asm", "release")
+    exe = exe or cbuild.build(variant, "native")
+    dseed = (ctx.seed * 0x9E3779B97F4A7C15 + length) % (1 << 63)
+    t0 = time.time()
+    if kind == "update":
+        rc, out, to = run([mon, "huge-expect", "--kind", "update", "--len", str(length), "--dseed", str(dseed)], env=env_base(), timeout=timeout)
+        m = re.search(r"HASH ([0-9a-f]{64})", out or "")
+        argv = [exe, "--big", "update", str(length), str(dseed), m.group(1) if m else ""]
+    else:
+        rc, out, to = run([mon, "huge-expect", "--kind", "finalize", "--dseed", str(dseed), "--at", str(seek + length - 64)], env=env_base(), timeout=timeout)
+        m = re.search(r"TAIL ([0-9a-f]{128})", out or "")
+        argv = [exe, "--big", "finalize", str(length), str(dseed), str(seek), m.group(1) if m else ""]
+    if to:
+        ctx.note_inconclusive("%s: model watchdog fired" % name)
+        return
+    if rc != 0 or not m:
+        raise HarnessError("%s: mon huge-expect failed rc=%s: %s" % (name, rc, (out or "")[-400:]))
+    rc, out, to = run(argv, env=env_base(), timeout=timeout)
+    step = {"step": name, "tool": "cdrv --big", "wall_s": round(time.time() - t0, 1), "rc": rc}
+    ctx.steps.append(step)
+    if to:
+        ctx.note_inconclusive("%s: watchdog fired" % name)
+        return
+    nv = 0
+    for line in out.splitlines():
+        if line.startswith("V idx="):
+            mm = re.match(r"V idx=(\d+) sig=(\S+) detail=(.*)", line)
+            _, sig, detail = mm.groups()
+            if _own(ctx.pid, sig):
+                nv += 1
+                ctx.add_violation(sig, "[%s] %s" % (name, detail), {"kind": "cmd", "cmd": argv, "cwd": VERIF})
+        elif line.startswith("T idx="):
+            ctx.note_inconclusive("%s: %s" % (name, line[:200]))
+    mdone = re.search(r"DONE records=(\d+)", out)
+    if not mdone and nv == 0:
+        if rc in (-9, 137):
+            ctx.note_inconclusive("%s: killed (out of memory?)" % name)
+            return
+        raise HarnessError("%s: cdrv --big exited %s without DONE: %s" % (name, rc, out[-600:]))
+    ctx.add_observed(name, int(mdone.group(1)) if mdone else 1, 1, [{"probe": kind, "bytes": length, "seek": seek}],
+                     "size-class probes of the C API: one blake3_hasher_update / blake3_hasher_finalize[_seek] call moving more than 2^32 bytes, compared with the specification model and with the same bytes moved in pieces",
+                     {"bytes": length, "kind": kind})
+    step["verdict"] = "violated" if nv else "held"
+
+
 # --------------------------------------------------------------------------------------------
 # Evidence only: llvm-cov line coverage of the anchored source files under a monitor workload
 # --------------------------------------------------------------------------------------------
